@@ -15,7 +15,7 @@ def sh(cmd, **kw):
 
 
 def one(pid: str, n: str) -> None:
-    src = Path(f"/tmp/seedout/{pid}/{n}")
+    src = Path(os.environ.get("SEEDOUT", "/tmp/seedout")) / pid / n
     wt = Path(tempfile.mkdtemp(prefix="seedwt."))
     shutil.rmtree(wt)
     r = sh(f"git -C /repo worktree add -q --detach {wt} HEAD")
@@ -34,7 +34,7 @@ def one(pid: str, n: str) -> None:
         if not ok:
             print(clean.stdout[-300:], clean.stderr[-300:])
             return
-        dst = ROOT / "seeded" / f"{pid}-{n}"
+        dst = ROOT / "seeded" / f"{pid}-{int(n) + int(os.environ.get('SEED_OFFSET', '0'))}"
         dst.mkdir(parents=True, exist_ok=True)
         for f in ("patch.diff", "demo.py", "notes.md"):
             if (src / f).exists():
